@@ -89,6 +89,18 @@ class ParamUse:
                         if par.targets[0].id not in aliases:
                             aliases.add(par.targets[0].id); grown = True
                         continue
+                    if isinstance(par, ast.AnnAssign) and par.value is node and isinstance(par.target, ast.Name):
+                        if par.target.id not in aliases:
+                            aliases.add(par.target.id); grown = True
+                        continue
+                    if isinstance(par, ast.BoolOp) and isinstance(par.op, ast.Or):
+                        # `y = x or <fresh>`: y is the caller's object whenever that object is not empty
+                        gp = getattr(par, '_parent', None)
+                        tname = gp.targets[0] if isinstance(gp, ast.Assign) and len(gp.targets) == 1 and gp.value is par else (gp.target if isinstance(gp, ast.AnnAssign) and gp.value is par else None)
+                        if isinstance(tname, ast.Name) and tname.id != pname:
+                            if tname.id not in aliases:
+                                aliases.add(tname.id); grown = True
+                            continue
                     if isinstance(par, (ast.Tuple, ast.List)):
                         gp = getattr(par, '_parent', None)
                         tgt = gp.target if isinstance(gp, (ast.For, ast.AsyncFor, ast.comprehension)) and gp.iter is par else None
@@ -232,7 +244,7 @@ def defaults_ro(chk, program, rule='DEFAULTS-RO'):
                         continue
                     chk.check(not bad, rule, inst, file=m.rel(), line=fn.lineno, func=q, expected='mutable default is only read (iterated, copied, compared), transitively through the callees it is passed to',
                               found=[f"{k}: {d_} (line {l})" for k, d_, l in bad] or 'read-only',
-                              detail='' if not bad else 'the default object is shared by every instance created without that argument: one instance\'s filter edits would leak into the next')
+                              detail='' if not bad else 'the object handed in (the caller\'s list, or the default shared by every instance created without that argument) is kept or edited in place: one instance\'s filter edits leak into the next / into the caller')
     chk.unit('mutable_default_parameters', n)
     # replacing mutable defaults by None is an improvement, so the floor is on what was scanned, not on what was found
     chk.floor('functions_scanned_for_mutable_defaults', scanned, 60)
